@@ -95,6 +95,20 @@ const preambleBase = `(set-logic ALL)
 (define-sort Float32 () (_ FloatingPoint 8 24))
 `
 
+// Native-string variant of the preamble (model finding): Str is SMT-LIB String, one code point per byte.
+const preambleNativeStr = `(define-sort Str () String)
+(define-fun slen ((s String)) Int (str.len s))
+(define-fun sat ((s String) (i Int)) Int (str.to_code (str.at s i)))
+(define-fun str_empty () String "")
+`
+
+var nativeBlocks = map[string]string{
+	"slen":    "",
+	"ssub":    "(define-fun ssub ((s String) (a Int) (b Int)) String (str.substr s a (- b a)))\n",
+	"sconcat": "(define-fun sconcat ((a String) (b String)) String (str.++ a b))\n",
+	"str_lt":  "(define-fun str_lt ((a String) (b String)) Bool (str.< a b))\n",
+}
+
 // Axiom blocks are included only when their trigger symbol occurs in the query, so that
 // quantifier-free obligations stay quantifier-free (and satisfiable ones yield models).
 var preambleBlocks = []struct{ sym, text string }{
@@ -377,6 +391,34 @@ func (c *Ctx) strLit(s string) string {
 }
 
 const strLitCharCap = 96
+
+// smtStringLit renders a Go string (bytes) as an SMT-LIB string literal, one code point per byte.
+func smtStringLit(s string) string {
+	var b strings.Builder
+	b.WriteByte('"')
+	for i := 0; i < len(s); i++ {
+		c := s[i]
+		switch {
+		case c == '"':
+			b.WriteString(`""`)
+		case c >= 0x20 && c < 0x7f && c != '\\':
+			b.WriteByte(c)
+		default:
+			fmt.Fprintf(&b, "\\u{%x}", c)
+		}
+	}
+	b.WriteByte('"')
+	return b.String()
+}
+
+// strLitDeclsNative: the literals as native SMT-LIB strings (model-finding variant).
+func (c *Ctx) strLitDeclsNative() string {
+	var b strings.Builder
+	for _, s := range c.strOrder {
+		fmt.Fprintf(&b, "(define-fun %s () String %s)\n", c.strLits[s], smtStringLit(s))
+	}
+	return b.String()
+}
 
 func (c *Ctx) strLitDecls() string {
 	var b strings.Builder
